@@ -132,6 +132,62 @@ def special_key_declaration_probe(ctx):
                               exception=repr(e)[:200])
 
 
+def receiver_after_rejection_probe(ctx):
+    """C10 "leaving the receiver unchanged": after a declaration call on a receiver was rejected, the SAME receiver object is
+    used again — what it prints, what it equals, and what every further refinement of it gives is what an independently built
+    equal receiver gives (a rejected call may not leave anything behind, visible now or at the next declaration)"""
+    receivers = {
+        "str": [lambda: schema.str("abc"), lambda: schema.str, lambda: schema.str.alphabet("abc"), lambda: schema.str.contains("b")],
+        "list": [lambda: schema.list([schema.int, schema.str]), lambda: schema.list, lambda: schema.list(schema.int)],
+        "int": [lambda: schema.int(5), lambda: schema.int.min(1)], "float": [lambda: schema.float(1.5), lambda: schema.float.precision(2)],
+        "dict": [lambda: schema.dict({"a": schema.int})], "any": [lambda: schema.any(schema.int)],
+    }
+    failing = {
+        "str": [lambda r: r.len(1, 2), lambda r: r.len(1, "x"), lambda r: r.len(2, 1), lambda r: r.len("x"), lambda r: r.alphabet(5), lambda r: r.regex("("),
+                lambda r: r.contains("zzz").contains("y"), lambda r: r.len(1, ...).len(2, ...), lambda r: r("other")("again"), lambda r: r.len(0, 1)],
+        "list": [lambda r: r.len(1, "x"), lambda r: r.len(3, 1), lambda r: r.len(0, 1), lambda r: r.len(5, 9), lambda r: r(5), lambda r: r.len(1, ...).len(1, ...)],
+        "int": [lambda r: r.min(9).max(1), lambda r: r.min("x"), lambda r: r.max(0).max(0), lambda r: r(1)(2)],
+        "float": [lambda r: r.min(9.0).max(1.0), lambda r: r.precision("x"), lambda r: r.min(1.0).min(2.0), lambda r: r.precision(1).precision(2)],
+        "dict": [lambda r: r({}), lambda r: r(5)], "any": [lambda r: r(schema.str), lambda r: r(5)],
+    }
+    follow = {
+        "str": [lambda r: r.alphabet("abcxyz"), lambda r: r.len(3), lambda r: r.contains("b"), lambda r: r("abc"), lambda r: r.len(1, ...)],
+        "list": [lambda r: r.len(2), lambda r: r.len(..., 5), lambda r: r.len(1, ...)],
+        "int": [lambda r: r.min(0), lambda r: r.max(100)], "float": [lambda r: r.min(0.0), lambda r: r.max(100.0), lambda r: r.precision(3)],
+        "dict": [lambda r: r + schema.dict({"z": schema.none})], "any": [lambda r: r | schema.none],
+    }
+
+    def outcome(f, r):
+        try:
+            x = f(r)
+            return ("ok", repr(x), repr(x.props))
+        except DeclarationError:
+            return ("rejected",)
+        except Exception as e:  # noqa: BLE001
+            return ("exc", type(e).__name__)
+    for kind, mks in receivers.items():
+        for mk in mks:
+            for bad in failing[kind]:
+                try:
+                    r, twin = mk(), mk()
+                except Exception:  # noqa: BLE001
+                    continue
+                first = outcome(bad, r)
+                ctx.count("receiver_after_rejection_cases")
+                if first[0] == "ok":
+                    continue                      # the call was accepted on this tree: nothing was rejected
+                if repr(r) != repr(twin) or not (r == twin) or repr(r.props) != repr(twin.props):
+                    ctx.violation("a rejected declaration call changed its receiver", receiver=repr(twin), after=repr(r), outcome=first)
+                    return
+                for f in follow[kind]:
+                    a, b = outcome(f, r), outcome(f, twin)
+                    if a != b:
+                        ctx.violation("after a rejected declaration call the receiver behaves differently from an equal schema built "
+                                      "independently", receiver=repr(twin), rejected_call_outcome=first, next_call_on_receiver=a,
+                                      next_call_on_twin=b)
+                        return
+
+
 def _deep_list(n):
     v = []
     for _ in range(n):
